@@ -295,6 +295,7 @@ func genScenario(rng *hx.Rng, meta *hx.Meta, prop string) scenario {
 			if b.B == probe.BPanic {
 				b.PKind = rng.Intn(4)
 				b.Timeout = rng.Bool()
+				b.Wrap = rng.Bool()
 			}
 			h.Beh[k] = b
 		}
